@@ -305,5 +305,32 @@ pub proof fn lemma_done_rec(m: Seq<SL>, a: Option<int>, filesz: int, fo: int, i:
     if i < m.len() { lemma_done_rec(m, a, filesz, fo, i + 1); }
 }
 
+
+// =====================================================================================================
+// PMY-STOP — logs without a year: SyslogProcessor::process_missing_year re-reads the file backwards assigning years and
+// may stop early at --dt-after.  Messages it does not reach keep a filler year and are later taken as before the window,
+// so C03 needs: the pass stops early only at a message STRICTLY before the lower bound (a message exactly at the bound,
+// and every message before it with the same instant, is still visited).  The statements between the start-of-file test
+// and the step to the preceding message, cut from the loop body.
+#[verifier::exec_allows_no_decreases_clause]
+pub fn pmy_stop(syslinep: &SyslineP, filter_dt_after_opt: &DateTimeLOpt, fo_prev0: FileOffset, charsz_fo: FileOffset) -> (r: (bool, FileOffset))
+    requires charsz_fo >= 1
+    ensures
+        // r.0: the pass goes on to the preceding message
+        !r.0 ==> fo_prev0 < charsz_fo || (filter_dt_after_opt is Some && instant(syslinep.dt_spec()) < instant(filter_dt_after_opt.unwrap())),
+        r.0 ==> r.1 == fo_prev0 - charsz_fo,
+{
+    let mut fo_prev: FileOffset = fo_prev0;
+    loop
+        invariant_except_break fo_prev == fo_prev0, charsz_fo >= 1,
+        ensures fo_prev0 < charsz_fo || (filter_dt_after_opt is Some && instant(syslinep.dt_spec()) < instant(filter_dt_after_opt.unwrap())),
+    {
+//@cut slice path=src/readers/syslogprocessor.rs impl=SyslogProcessor fn=process_missing_year anchor="if fo_prev < charsz_fo {" take=range end_anchor="fo_prev -= charsz_fo;" label=PMY-STOP
+//@end
+        return (true, fo_prev);
+    }
+    (false, fo_prev)
+}
+
 } // verus!
 fn main() {}
